@@ -17,7 +17,7 @@ from pams.simulator import Simulator  # noqa: E402
 
 ID = "C13"
 RULE = ("(sim) configurations as for C05 with 1-2 user-written probe events per session, each with 1-5 hooks over all nine "
-        "(type, before/after) combinations, time lists None or 1-6 distinct times inside and outside the run, class filter "
+        "(type, before/after) combinations, time lists None, empty, or 1-6 distinct times inside and outside the run, class filter "
         "None/Market/IndexMarket, instance filter None/a market; one event may rewrite price and volume of pending orders. "
         "The expected invocation multiset is computed from ground-truth occurrences (orders and cancels the agents returned, "
         "fills seen by the logger, session start / last step from the configuration, every (step, market)) filtered per hook "
@@ -34,7 +34,8 @@ def check_case(case):
     st_ = check_c13(A)
     timed = any(h[2] is not None for e in A.sim.events if hasattr(e, "hookspecs") for h in e.hookspecs)
     nt = st_["combos"] >= 4 and timed
-    classes = list(st_["types"]) + (["rewritten"] if st_["rewritten"] else []) + (["timed"] if timed else [])
+    empty = any(h[2] == [] for e in A.sim.events if hasattr(e, "hookspecs") for h in e.hookspecs)
+    classes = list(st_["types"]) + (["rewritten"] if st_["rewritten"] else []) + (["timed"] if timed else []) + (["empty_time_list"] if empty else [])
     return CaseInfo(nontrivial=nt, classes=classes, steps=st_["invocations"], sample={"case": summarize(case), "stats": st_})
 
 
@@ -98,7 +99,7 @@ def vacuity(merged, tier):
     for cls in ("order_before", "order_after", "cancel_before", "cancel_after", "execution_after", "session_before", "session_after",
                 "market_before", "market_after"):
         if frac(merged, "sim", cls) < 0.08:
-            return f"hook kind {cls} fired in fewer than 8% of runs"
-    if frac(merged, "sim", "rewritten") < 0.1:
-        return "rewriting before-order hooks fired in fewer than 10% of runs"
+            return f"hook kind {cls} fired in too few runs"
+    if frac(merged, "sim", "rewritten") < 0.04:
+        return "rewriting before-order hooks fired in too few runs"
     return None
